@@ -3,7 +3,7 @@ from .common import CFGS
 from .thr import numerator
 
 META = {
-    "bounds": {"quick": {"scores": "P,N in 1..2, sorted harness with ties, easy counts {0,2}", "user arrays": "thresholds/fnr/fpr of length <= 2 with symbolic elements, every present/absent combination",
+    "bounds": {"quick": {"scores": "P,N in 1..2, sorted harness with ties, easy counts {0,2}; plus integer-dtype scores in [-3,3] (2+2) with real-valued user thresholds", "user arrays": "thresholds/fnr/fpr of length <= 2 with symbolic elements, every present/absent combination",
                          "nb_points": "None, 2, 3, 5", "x_axis": "all 8 names + an unknown one", "configs": "all 4"},
                "thorough": {"scores": "P,N in 1..3", "user arrays": "as quick", "nb_points": "None, 2, 3, 5, 6"}},
     "assumptions": ["R-ideal for the threshold-setting step, R-exact for rates", "user-supplied fnr/fpr targets are arbitrary reals"],
@@ -28,6 +28,9 @@ def items(tier):
         for x_axis in AXES:
             out.append({"kind": "default", "sc": sc, "ec": ec, "P": 2, "N": 1, "nb_points": None, "x_axis": x_axis, "easy": [0, 0]})
             out.append({"kind": "user", "sc": sc, "ec": ec, "P": 2, "N": 2, "nt": 1, "nfn": 1, "nfp": 1, "x_axis": x_axis, "easy": [1, 0]})
+        # integer-valued scores (dtype int) with fractional user thresholds / rates: nothing is truncated to the score dtype
+        out.append({"kind": "user", "sc": sc, "ec": ec, "P": 2, "N": 2, "nt": 2, "nfn": 1, "nfp": 0, "x_axis": "fnr", "easy": [0, 0], "ints": True})
+        out.append({"kind": "default", "sc": sc, "ec": ec, "P": 2, "N": 2, "nb_points": 3, "x_axis": "fpr", "easy": [1, 0], "ints": True})
         out.append({"kind": "badaxis", "sc": sc, "ec": ec})
     return out
 
@@ -36,8 +39,8 @@ def run(h, kind, **p):
     return globals()["run_" + kind](h, **p)
 
 
-def _S(h, sc, ec, P, N, easy):
-    pos, neg = h.reals("p", P), h.reals("n", N)
+def _S(h, sc, ec, P, N, easy, ints=False):
+    pos, neg = (h.ints("p", P, -3, 3), h.ints("n", N, -3, 3)) if ints else (h.reals("p", P), h.reals("n", N))
     for a in (pos, neg):
         for i in range(len(a) - 1):
             h.assume(a[i] <= a[i + 1])
@@ -63,8 +66,8 @@ def _common(h, S, pos, neg, easy, sc, ec, curve, x_axis):
     return thr
 
 
-def run_user(h, sc, ec, P, N, nt, nfn, nfp, x_axis, easy):
-    S, pos, neg = _S(h, sc, ec, P, N, easy)
+def run_user(h, sc, ec, P, N, nt, nfn, nfp, x_axis, easy, ints=False):
+    S, pos, neg = _S(h, sc, ec, P, N, easy, ints)
     ut = h.reals("ut", nt)
     ufn = h.reals("ufn", nfn, float_atom=False)
     ufp = h.reals("ufp", nfp, float_atom=False)
@@ -83,8 +86,8 @@ def run_user(h, sc, ec, P, N, nt, nfn, nfp, x_axis, easy):
         h.check("every supplied threshold / threshold of a supplied rate is on the curve", h.Or([h.eq(w, t, 0) for t in thr]))
 
 
-def run_default(h, sc, ec, P, N, nb_points, x_axis, easy):
-    S, pos, neg = _S(h, sc, ec, P, N, easy)
+def run_default(h, sc, ec, P, N, nb_points, x_axis, easy, ints=False):
+    S, pos, neg = _S(h, sc, ec, P, N, easy, ints)
     curve = h.sa.roc(S, x_axis=x_axis, nb_points=nb_points)
     thr = _common(h, S, pos, neg, easy, sc, ec, curve, x_axis)
     if nb_points is None:
